@@ -828,15 +828,16 @@ func ruleRekorProofRequest(w *World, r *Run, rule string) {
 	pkg := modPath + "/internal/feeder/rekor"
 	n := 0
 	for _, fn := range w.prodFns() {
-		if pkgPathOf(fn) != pkg || len(fn.Params) != 3 {
+		if pkgPathOf(fn) != pkg || fn.Signature.Params().Len() != 3 {
 			continue
 		}
-		// the proof fetcher: func(ctx, from, to log.Checkpoint) ([][]byte, error)
-		if typeStr(fn.Params[1].Type()) != "log.Checkpoint" || typeStr(fn.Params[2].Type()) != "log.Checkpoint" {
+		// the proof fetcher: func(ctx, from, to log.Checkpoint) ([][]byte, error), a closure or a method
+		off := len(fn.Params) - 3
+		if off < 0 || typeStr(fn.Params[off+1].Type()) != "log.Checkpoint" || typeStr(fn.Params[off+2].Type()) != "log.Checkpoint" {
 			continue
 		}
-		from := mk("param", fn.Params[1].Name(), 0, fn.Params[1].Type())
-		to := mk("param", fn.Params[2].Name(), 0, fn.Params[2].Type())
+		from := mk("param", fn.Params[off+1].Name(), 0, fn.Params[off+1].Type())
+		to := mk("param", fn.Params[off+2].Name(), 0, fn.Params[off+2].Type())
 		e := w.engine(4, 1)
 		sums := e.Explore(fn)
 		for i := range sums {
